@@ -162,8 +162,9 @@ def snapshot(built, input_kwargs=None):
     nm = sorted((k, v.__name__) for k, v in dag.node_map.items())
     cls_attrs = sorted((c.__name__, sorted((a, repr(getattr(c, a))) for a in ('name', 'attempts', 'delay', 'exceptions', 'use_default', 'tags', 'node_type')))
                        for c in built['classes'])
+    gattrs = sorted((str(k), repr(v)) for k, v in g.graph.items())
     return dict(nodes=nodes, edges=edges, node_map=nm, input_node=dag.input_node, output_node=dag.output_node,
-                classes=cls_attrs)
+                classes=cls_attrs, graph_attrs=gattrs)
 
 
 class Run:
@@ -488,4 +489,4 @@ def run_schedule(spec, sched, n_runs=1, overlap=False, inputs=None, tag='', step
 
 def _flat(s):
     return [('node', x) for x in s['nodes']] + [('edge', x) for x in s['edges']] + [('map', x) for x in s['node_map']] + \
-        [('cls', x) for x in s['classes']]
+        [('cls', x) for x in s['classes']] + [('graph_attr', x) for x in s['graph_attrs']]
